@@ -53,9 +53,23 @@ def r1(ctx):
             lin = linear(ins, s["r"]["o"]) if s["r"]["k"] == "use" else None
             if lin and lin[0] == ("field", "turmoil_net::Net::next_rule_id") and lin[1] == 1:
                 inc = True
-        ctx.inst(R, "install_rule:fresh-id", inc and len(idw) == 1, ins.span, "rule ids come from a counter incremented by one per install" if inc else
+        # ... or a thread-local cell: NEXT.with(|n| n.replace(n.get() + 1))
+        tl = False
+        for fb in ctx.w.family(ins.id):
+            for bb, t in fb.calls(re.compile(r"^std::cell::Cell::(replace|set)$")):
+                sh = expr_shape(fb, t["args"][1])
+                if isinstance(sh, tuple) and sh[0] == "Add" and "const:1" in sh[1:]:
+                    tl = True
+        fresh = (inc and len(idw) == 1) or (tl and not idw)
+        ctx.inst(R, "install_rule:fresh-id", fresh, ins.span, "rule ids come from a counter incremented by one per install" if fresh else
                  "rule ids are not drawn from a strictly increasing counter (an id can be reused: insert overwrites in place)")
-    ctx.floor(R, 4)
+        # a RuleGuard can outlive its Net and `uninstall_rule(id)` is applied to whatever Net is current on the thread: the id must
+        # be unique among all Nets of the thread, i.e. must not come from a per-Net counter
+        per_net = bool(idw)
+        ctx.inst(R, "install_rule:id-outlives-net", not per_net, ins.span, "rule ids are unique across the Nets of a thread" if not per_net else
+                 "rule ids come from a per-Net counter that restarts at 1, while RuleGuard::drop -> uninstall_rule applies the bare id to whichever Net is current: "
+                 "a guard kept from an earlier ClientServer run uninstalls an unrelated rule (the partition) of the next run although that rule's own guard is alive")
+    ctx.floor(R, 5)
 
 
 def r2(ctx):
@@ -259,7 +273,7 @@ def r4(ctx):
         inc = any((linear(s, st["r"]["o"]) or (None, None)) == (("field", "turmoil_net::fixture::scheduler::Scheduler::next_seq"), 1) for st in sq if st["r"]["k"] == "use")
         ctx.inst(R, "schedule:monotone-seq", inc and len(sq) == 1, s.span, "tie-break sequence increases by one per scheduled packet" if inc else "tie-break sequence is not a monotone counter")
         da = False
-        for bb, t in s.calls(re.compile(r"Instant as std::ops::Add>::add$|Duration as std::ops::Add>::add$")):
+        for bb, t in s.calls(re.compile(r"Instant as std::ops::Add>::add$|Duration as std::ops::Add>::add$|Duration::saturating_add$|Duration::checked_add$")):
             a0 = Slicer(ctx.w).atoms(s, t["args"][0])
             a1 = Slicer(ctx.w).atoms(s, t["args"][1])
             if "field:turmoil_net::fixture::scheduler::Scheduler::now" in a0 and any(a.startswith("arg:3:") for a in a1):
@@ -296,7 +310,25 @@ def r5(ctx):
     ctx.floor(R, 4)
 
 
+def r6(ctx):
+    R = "C19-R6"
+    ctx.rule(R, "deadline arithmetic does not overflow: Scheduler::schedule computes the delivery deadline `now + delay` with a saturating "
+                "/ checked addition - `Deliver(d)` accepts any Duration, and with the panicking `+` a rule that holds packets 'for ever' "
+                "(Duration::MAX) aborts the whole simulation instead of parking the packet")
+    s = ctx.body(R, "turmoil_net::fixture::scheduler::Scheduler::schedule")
+    if not s:
+        return
+    adds = [(bb, t) for bb, t in s.calls(re.compile(r"Duration as std::ops::Add>::add$|Instant as std::ops::Add<.*>>::add$|::saturating_add$|::checked_add$"))
+            if "field:turmoil_net::fixture::scheduler::Scheduler::now" in Slicer(ctx.w).atoms(s, t["args"][0]) | Slicer(ctx.w).atoms(s, t["args"][1])]
+    for bb, t in adds:
+        ok = not t["f"].endswith("::add")
+        ctx.inst(R, "schedule:deadline-saturates", ok, t["s"], "deadline = now saturating_add delay" if ok else
+                 "Scheduler::schedule adds the delay to the clock with the panicking `+`: Deliver(Duration::MAX) panics with `overflow when adding durations`")
+    ctx.floor(R, 1)
+
+
 def run(ctx):
+    r6(ctx)
     r1(ctx)
     r2(ctx)
     r3(ctx)
